@@ -1700,9 +1700,31 @@ def ref_constructors(units, R):
         raise AnalysisBroken('REFC: no return of the reference node found')
     n += 1
     # the definitions of each field that are in effect where the reference node is returned
-    ok_key = all(d.kind == 'zero' for d in final['string'])
-    R.ob('REFC', fn, None, 'reference node has no key of its own', ok_key,
-         'string = NULL' if ok_key else 'key: %s' % '; '.join(sorted(d.describe() for d in final['string'] if d.kind != 'zero')), key='ref-key')
+    # the key of the reference is not the original's: NULL, or a fresh copy made here, with the constant-key bit the whole-node copy
+    # may have brought along cleared before the node is handed out
+    from .tree import _fresh_sources
+    fresh_calls = _fresh_sources(u) | {'cJSON_strdup'}
+    fcfg = fn.cfg()
+
+    def own_copy(d):
+        if d.kind != 'store' or d.r is None or d.fn is not fn:
+            return False
+        r_ = strip_casts(d.r)
+        if not (r_.get('k') == 'call' and (callee_name(r_) in fresh_calls or indirect_field(r_) in ('allocate',))):
+            return False
+        sn = fcfg.node_of_expr(d.stmt['id'])
+        if sn is None:
+            return False
+        clears = {m.id for m in fcfg.nodes for ev in node_effects(m)
+                  if ev.kind == 'store' and is_mem(ev.lhs, 'type') and ev.node['op'] == '&=' and const_val(ev.node['r']) is not None and
+                  not (const_val(ev.node['r']) & 512) and strip_casts(strip_casts(ev.lhs)['b']).get('d') == refv}
+        region = fcfg.reachable(sn.id, stop=clears)
+        return not any(rr.id in region and rr.expr is not None and strip_casts(rr.expr).get('k') == 'ref' and strip_casts(rr.expr)['d'] == refv
+                       for rr in fcfg.returns())
+    ok_key = all(d.kind == 'zero' or own_copy(d) for d in final['string'])
+    R.ob('REFC', fn, None, 'the key of a reference node is not the original\'s', ok_key,
+         'string = NULL, or a copy made here with cJSON_StringIsConst cleared' if ok_key else
+         'key: %s' % '; '.join(sorted(d.describe() for d in final['string'] if d.kind != 'zero' and not own_copy(d))), key='ref-key')
 
     def flagged(d):
         if d.kind == 'store':
@@ -1713,6 +1735,23 @@ def ref_constructors(units, R):
     ok_bit = all(flagged(d) for d in final['type'])
     R.ob('REFC', fn, None, 'reference node carries cJSON_IsReference', ok_bit,
          '' if ok_bit else 'type: %s' % '; '.join(sorted(d.describe() for d in final['type'] if not flagged(d))), key='ref-bit')
+    # the half-built node must not be released as if it owned what the whole-node copy brought along
+    for m in ncfg.nodes:
+        root = m.expr if m.expr is not None else (m.decl.get('init') if m.kind == 'decl' and m.decl else None)
+        if root is None or m.id not in nbefore:
+            continue
+        for c in walk(root):
+            if c.get('k') == 'call' and callee_name(c) == 'cJSON_Delete' and c.get('args') and \
+                    strip_casts(c['args'][0]).get('k') == 'ref' and strip_casts(c['args'][0])['d'] == refv:
+                st = nbefore[m.id]
+                tdefs = [d for d in st['type'] if d.kind != 'nocopy']
+                borrowed = [f_ for f_ in ('child', 'valuestring') if any(d.kind == 'whole' for d in st[f_])]
+                n += 1
+                okd = not borrowed or (tdefs and all(flagged(d) for d in tdefs))
+                R.ob('REFC', fn, c, 'a reference node is released only once it is marked as borrowing', okd,
+                     'cJSON_IsReference is set (or nothing was copied yet)' if okd else
+                     '%s still %s what the whole-node copy took from the original and cJSON_IsReference is not set yet: '
+                     'cJSON_Delete releases the original\'s %s' % (expr_str(c['args'][0]), 'holds', ' and '.join(borrowed)), key='ref-release')
     for f in ('next', 'prev'):
         okl = all(d.kind == 'zero' for d in final[f])
         R.ob('REFC', fn, None, 'reference node has no sibling link %s' % f, okl,
